@@ -258,6 +258,13 @@ Proof.
   - reflexivity.
   - reflexivity.
   - reflexivity.
+  - assert (In_ : fresh_list (map (fun vs => AAppend [A (resolve_alias h r name)] (new_list vs)) vss) = true)
+      by (apply fresh_map; intros vs; reflexivity).
+    destruct (zmem _ _); [reflexivity|]. destruct (zmem _ _).
+    + change (fresh_list ([ASet [] (A (resolve_alias h r name)) (new_list [])] ++ map (fun vs => AAppend [A (resolve_alias h r name)] (new_list vs)) vss) = true).
+      rewrite fresh_list_app, In_. reflexivity.
+    + destruct (_ =? _); [|reflexivity]. rewrite fresh_list_app, In_. reflexivity.
+  - destruct (zmem _ _); [reflexivity|]. destruct (zmem _ _); [reflexivity|]. destruct (_ =? _); reflexivity.
   - destruct (zmem _ _); [destruct (Nat.eqb _ _)|]; reflexivity.
 Qed.
 
